@@ -355,4 +355,11 @@ def r7_literal_conversion(ctx):
     ctx.check(ok, st.qual + "#uses-eval-entry", "strings and sequence elements go through eval_entry" if ok else "Processor.set no longer converts through eval_entry", where=st, node=uses[0] if uses else st.node)
 
 
-RULES = [r7_literal_conversion, r6_assignment_does_not_leak_through_copies, r1_arguments_refuse_unknown, r2_set_is_existence_checked, r3_single_resolution_rule, r4_validate_steps, r5_assignment_is_local]
+def r8_values_reach_their_own_key(ctx):
+    """"Assigning through a key changes that setting and nothing else": on the dask path values and keys are paired by position, so the ordered name mapping and the value tuples must list the swept keys in the same (declaration) order (shared with C07.R6)."""
+    from props.C07 import r6_names_values_same_order
+
+    r6_names_values_same_order(ctx)
+
+
+RULES = [r8_values_reach_their_own_key, r7_literal_conversion, r6_assignment_does_not_leak_through_copies, r1_arguments_refuse_unknown, r2_set_is_existence_checked, r3_single_resolution_rule, r4_validate_steps, r5_assignment_is_local]
